@@ -122,6 +122,25 @@ def history_oracle(ops, impl):
                 o.ack((1, gen_bytes(kl, st + j), gen_bytes(dl, st + j)))
         elif f[0] in ("flush", "sync", "close") and rep == "ok":
             o.flushed()
+        elif f[0] == "ccfg":
+            o = HistoryOracle()
+            o.exists = True
+        elif f[0] in ("cw", "cd") and rep == "ok":
+            k = spec_bytes(f[1])
+            # the chronicler logs and drops what the writer refuses; a key the format cannot carry
+            # must not be stored at all
+            if 0 < len(k) <= 65535:
+                o.ack((1, k, spec_bytes(f[2])) if f[0] == "cw" else (3, k, b""))
+            else:
+                o.has_empty_key |= len(k) == 0
+                o.has_long_key |= len(k) > 65535
+        elif f[0] == "cclose" and rep == "ok":
+            o.flushed()
+        elif f[0] == "cload":
+            got = rep.split(" ")[1] if rep.startswith("cidx ") else rep
+            cands, _ = o.candidates()
+            if got not in cands:
+                bad.append((i, "after `cload`: a fresh chronicler loaded %s, the writes give %s" % (got[:60], sorted(cands)[:3]), o.signature()))
         elif f[0] in ("load", "raw"):
             if f[0] == "load":
                 if rep.startswith("idx "):
